@@ -1,6 +1,7 @@
 // C19 driver: independent encoder / decoder instances on concurrent threads.   BUILD-KINDS: plain tsan
 //   drv_c19 sched  <schedules.ndjson> <seed>     every TLC schedule enforced on real threads by a cooperative scheduler: the DRACO_VERIF_SCHED sites of the
 //                                                 library are the schedule points; "run thread s_i up to its next schedule point" for every entry s_i
+//   drv_c19 events <seed> <n>                     single-threaded: the schedule points every encode / decode call passes, in order (module Pipeline)
 //   drv_c19 stress <nthreads> <rounds> <seed>     free-running threads (hooks off), each with its own geometries, option sets, Encoder / Decoder objects and buffers
 // Every thread's results (hash of the encoded bytes, ordered digest of the decoded geometry, reported counts) are compared with the results of the same
 // jobs run alone in a sequential pre-pass; one "Thread" record per thread and execution.  Under TSan the same stress exposes data races inside draco::.
@@ -226,9 +227,42 @@ static int run_stress(int nthreads, int rounds, uint64_t seed) {
   return 0;
 }
 
+// ------------------------------------------------------------------------------------------------ stage order of single calls (module Pipeline)
+static std::vector<std::string> g_events;
+static void record_point(const char *site) { g_events.push_back(site); }
+static int run_events(uint64_t seed, long n) {
+  vrt::Rng r(seed);
+  verif::SchedSink() = record_point;
+  for (long i = 0; i < n; ++i) {
+    std::vector<Job> jobs = make_jobs(r, 1);
+    const Job &j = jobs[0];
+    g_events.clear();
+    Encoded e = encode(j.g, j.o);
+    auto emit = [&](const char *op, bool ok) {
+      std::string ev = "[";
+      for (size_t k = 0; k < g_events.size(); ++k) ev += std::string(k ? "," : "") + "\"" + g_events[k] + "\"";
+      out.begin("Pipe").s("op", op).b("ok", ok).raw("ev", ev + "]").end();
+    };
+    emit("enc", e.ok);
+    if (!e.ok) continue;
+    // decode the stream, and a truncated copy of it (a failed call stops on the way)
+    for (int cut = 0; cut < 2; ++cut) {
+      std::vector<char> b = e.bytes;
+      if (cut) b.resize(b.size() * (size_t)r.range(1, 9) / 10);
+      g_events.clear();
+      Decoded d = decode(b.data(), b.size());
+      emit("dec", d.ok);
+    }
+  }
+  verif::SchedSink() = nullptr;
+  fprintf(stderr, "STATS executions=%ld\n", n);
+  return 0;
+}
+
 int main(int argc, char **argv) {
   if (getenv("VERIF_RECORDS")) { out.f = fopen(getenv("VERIF_RECORDS"), "w"); if (!out.f) return 2; }
   if (argc >= 4 && !strcmp(argv[1], "sched")) return run_sched(argv[2], strtoull(argv[3], 0, 10));
+  if (argc >= 4 && !strcmp(argv[1], "events")) return run_events(strtoull(argv[2], 0, 10), atol(argv[3]));
   if (argc >= 5 && !strcmp(argv[1], "stress")) return run_stress(atoi(argv[2]), atoi(argv[3]), strtoull(argv[4], 0, 10));
   fprintf(stderr, "usage: drv_c19 sched <rows> <seed> | stress <nthreads> <rounds> <seed>\n");
   return 2;
